@@ -2,6 +2,7 @@ package c08
 
 import (
 	"fmt"
+	"math/big"
 	"reflect"
 	"strings"
 
@@ -104,6 +105,14 @@ func (u *user) special(v reflect.Value) {
 	case tlb.VmStackValue:
 		u.stackValue(x)
 		u.call("tlb.VmStackValue.Unmarshal", func() { _ = x.Unmarshal(reflect.New(destType(x)).Interface()) })
+		if x.SumType == "VmStkInt" || x.SumType == "VmStkTinyInt" {
+			// an integer entry into every destination the reader supports
+			for _, d := range []any{new(tlb.Bits256), new(tlb.Int257), new(uint64), new(int64), new(uint32), new(int8), new(bool), new(big.Int),
+				new(*int64), new(*tlb.Bits256), new(*tlb.Int257), new(*bool), new(tlb.Uint256), new(tlb.Int256)} {
+				d := d
+				u.call("tlb.VmStackValue.Unmarshal("+reflect.TypeOf(d).Elem().String()+")", func() { _ = x.Unmarshal(d) })
+			}
+		}
 	case tlb.VmStkTuple:
 		u.call("tlb.VmStkTuple.Unmarshal", func() { var s []tlb.VmStackValue; _ = x.Unmarshal(&s) })
 		u.call("tlb.VmStkTuple.RecursiveToSlice", func() { _, _ = x.RecursiveToSlice() })
